@@ -551,9 +551,12 @@ impl<'input> State<'input> {
         let first_match = meta_infos
             .iter()
             .find_map(|info| info.enabled.map(|_| info));
+        let any_enabling = meta_infos
+            .iter()
+            .any(|info| info.enabled == Some(true));
 
-        // Default to enabled true, except when first attribute has explicit
-        // enabling.
+        // Default to enabled true, except when any attribute has explicit
+        // enabling (wherever it stands among ignoring ones).
         //
         // Except for derive Error.
         //
@@ -575,7 +578,7 @@ impl<'input> State<'input> {
         ) {
             true
         } else {
-            first_match.map_or(true, |info| !info.enabled.unwrap())
+            !any_enabling
         };
 
         let defaults = struct_meta_info.into_full(FullMetaInfo {
